@@ -296,8 +296,8 @@ def run(ctx):
     ns = 16
     ctx.units("golden-token-listings", unit_golden, [{}])
     ctx.units("kind-sequences-exhaustive", unit_kinds, [{"L": L, "shard": i, "nshards": ns} for i in range(ns)], procs=ns)
-    ctx.units("long-lookahead-runs", unit_long_runs, [{"lengths": list(range(0, 34)) + [64, 128, 129, 256, 257] + ([] if q else [1024, 1025, 4096]), "shard": i, "nshards": 16} for i in range(16)], procs=16)
-    ctx.units("long-lookahead-text", unit_long_text, [{"lengths": list(range(0, 20)) + [31, 32, 33, 64, 128, 256] + ([] if q else [1000, 3000])}])
+    ctx.units("long-lookahead-runs", unit_long_runs, [{"lengths": list(range(0, 34)) + [64, 128, 129, 256, 257, 1100] + ([] if q else [1024, 1025, 4096]), "shard": i, "nshards": 16} for i in range(16)], procs=16)
+    ctx.units("long-lookahead-text", unit_long_text, [{"lengths": list(range(0, 20)) + [31, 32, 33, 64, 128, 256, 1100] + ([] if q else [2000, 3000])}])
     from . import magnitude
     magnitude.run_big(ctx, "c18", "check_text", "text")
     ctx.units("after-aborted-parse", unit_prev_combos, [{}])
